@@ -199,6 +199,7 @@ def run_property(prop, tier, seed, args):
     dropped = set()
     samples = []
     bounded_only = []
+    healthy_reports = []
     for r in reports:
         ob_ok = (REGISTRY.contracts[r["qualname"]].restrictions.get(prop) or (None, None))[1]
         if ob_ok is not None:
@@ -253,6 +254,7 @@ def run_property(prop, tier, seed, args):
                       "detail": f"case {r.get('case')!r}: no path of {r['qualname']} returns normally on this tree (exits: {r['exits']}), "
                                 "although the contract states postconditions for the normal return and such a path existed at baseline"}
                 handle_extra_refutation(prop, e_, known, violations, known_lines)
+        healthy_reports.append((r["qualname"], r.get("case"), label, set(r["obligations"])))
         if n == 0:
             errors.append((r["qualname"], r["case"], "zero obligations generated"))
         fn_rows.append({"function": label, "source_hash": r["source_hash"], "paths": r["paths"], "obligations": n,
@@ -292,6 +294,21 @@ def run_property(prop, tier, seed, args):
     if selftest_res is not None:
         for d in selftest_res["disagreements"]:
             errors.append(("engine self-test", d["function"], f"CPython: {d['cpython']}; engine: {d['engine']}; inputs {d['inputs']} ({d['mode']})"))
+    # every obligation proved at baseline for a function / case verified in this run must be generated again: a clause
+    # that is skipped on every path (it names a local the code no longer has, or its path is gone) would otherwise
+    # silently stop being checked.  Not a verdict about the property: undecided (exit 3).
+    extra_names = {e["name"] for e in extra}
+    for qn_, case_, label_, present_ in healthy_reports:
+        suffix_ = f" [{case_}]" if case_ else ""
+        for bk, bv in baseline.items():
+            if bv != "proved" or not bk.startswith(qn_ + "::") or bk in extra_names:
+                continue
+            if (bk.endswith("]") and " [" in bk) != bool(suffix_) or (suffix_ and not bk.endswith(suffix_)):
+                continue
+            name_ = bk[: len(bk) - len(suffix_)] if suffix_ else bk
+            if name_ in present_ or name_ in extra_names or "::exc.undeclared" in name_ or name_.endswith("::cover.normal_return_reachable"):
+                continue
+            undecided.append((label_, name_ + " (proved at baseline, not generated on this tree: the clause no longer attaches to the code)"))
     for e in extra:
         ob_total += 1
         backends[e.get("backend", "?")] = backends.get(e.get("backend", "?"), 0) + 1
